@@ -3,6 +3,21 @@
 # kind: rapid (default) | exhaustive | plain
 # quick/thorough: checks = total rapid cases over all shards; shards = processes; timeout = seconds per shard
 PARTS = {
+    "C17": [
+        {"test": "TestVfC17aMcache",
+         "quick": {"checks": 20000, "shards": 4, "timeout": 300},
+         "thorough": {"checks": 800000, "shards": 16, "timeout": 1500}},
+    ],
+    "C02": [
+        {"test": "TestVfC02aTimeCache",
+         "quick": {"checks": 8000, "shards": 4, "timeout": 300},
+         "thorough": {"checks": 400000, "shards": 16, "timeout": 1500}},
+    ],
+    "C20": [
+        {"test": "TestVfC20aSeqno",
+         "quick": {"checks": 12000, "shards": 4, "timeout": 300, "gomaxprocs": [16, 2, 1, 4]},
+         "thorough": {"checks": 600000, "shards": 16, "timeout": 1500, "gomaxprocs": [16, 2, 1, 4]}},
+    ],
     "C10": [
         {"test": "TestVfC10Score",
          "quick": {"checks": 60000, "shards": 4, "timeout": 600},
@@ -32,6 +47,18 @@ PARTS = {
 LEVEL = {}  # default: exploration
 
 RULES = {
+    "C17": "(a) message cache alone: rapid sequences of put / get / get-for-peer / gossip-ids / shift (<= 60 ops, gossip <= history <= 8) "
+           "against a sliding-window model (retrievable for HistoryLength shifts, advertised for HistoryGossip, per-peer transmission "
+           "counts); non-trivial = a query hits a message exactly at a window edge. (b) see part list. Distinct = distinct case JSON.",
+    "C02": "(a) seen cache alone, both strategies, public timecache API under the virtual clock: sequences of Add/Has/advance over 4 ids "
+           "with TTLs 1s..10min against the statement's two-sided bound (must be present before expiry, must be absent after expiry + "
+           "one sweep interval, either answer in between with the model following the implementation); non-trivial = an operation "
+           "falls after an expiry or between TTL and sweep. (b) see part list. Distinct = distinct case JSON.",
+    "C20": "(a) BasicSeqnoValidator on an instrumented metadata store: 1-8 goroutines each validating a generated list of (author, "
+           "sequence number incl. duplicates, decreasing runs, 0, 2^64-1, encodings of 0..12 bytes), optionally with the first store "
+           "reads of all goroutines forced to overlap and with yields inside the store; oracle = per author the stored nonces are "
+           "strictly increasing, equal the accepted values, no value accepted twice, the highest value is accepted, final nonce = "
+           "highest accepted, replays get Ignore, no panic. Non-trivial: >= 2 goroutines hold messages of one author. (b) see part list.",
     "C10": "rapid-generated parameter sets accepted by validate() (atomic and skip-atomic with whole groups zeroed, 1-3 topics, "
            "topic cap, IP whitelist) x histories of up to ~70 scoring events (connect, disconnect, reconnect, graft, prune, "
            "validate, deliver, reject with each of the 11 reasons, duplicates before/after validation and around the delivery "
@@ -56,6 +83,9 @@ RULES = {
 }
 
 ASSUMPTIONS = {
+    "C17": ["message IDs are put into the cache once (the seen cache guarantees that inside its window); HistoryLength >= 1"],
+    "C02": ["operations are kept half a second off the sweep instants so no outcome depends on the order of an operation and a sweep in one instant"],
+    "C20": ["interleavings are those the Go scheduler produces plus one forced overlap of the first store reads; GOMAXPROCS varied across shards"],
     "C10": ["the reference model is a second implementation written from the v1.1 specification; a misreading shared by both goes unseen",
             "domain: parameters validate() accepts with disabled groups zero or in range, DecayInterval >= 1s, at most one connection per remote address and one IPv6 address per peer, PRUNE only for mesh members, each message ID validated once",
             "time in mesh and P3 activation may be sampled at decay ticks or evaluated continuously: both are accepted (interval oracle)"],
@@ -69,6 +99,25 @@ ASSUMPTIONS = {
 HOOK_COMMITS = ["407c3ed"]
 
 META = {
+    "C17": {
+        "text": "Model-based property testing of the message cache windows and (b-part) of the gossip bounds on a direct-driven router; "
+                "finds window off-by-ones, wrong counters and bound violations reachable by the generated histories; no proof of absence.",
+        "note": "Trusts the window model, rapid, synctest.",
+        "technique": "stateful model-based property testing (rapid) of MessageCache and of gossip control handling",
+    },
+    "C02": {
+        "text": "Generated operation sequences under a virtual clock against a two-sided time-bound oracle for both cache strategies, and "
+                "(b-part) generated multi-copy arrival schedules through the real validation pipeline; finds early forgetting, missing "
+                "refresh, never-forgetting and double delivery/validation within the generated bounds.",
+        "note": "Trusts synctest's virtual clock and the stated sweep interval (1 minute).",
+        "technique": "property-based testing (rapid) with a time-bound reference model under testing/synctest",
+    },
+    "C20": {
+        "text": "Generated concurrent validation workloads with forced overlap against an invariant over the store's Put history; finds "
+                "missing re-checks, wrong comparisons and crashes on malformed encodings; schedule coverage is what the runtime yields plus one forced overlap.",
+        "note": "Trusts the instrumented store and the Go scheduler's fairness; no proof over all interleavings.",
+        "technique": "property-based testing (rapid) with invariant oracle over concurrent histories, forced read overlap",
+    },
     "C10": {
         "text": "Model-based property testing: hundreds of thousands of generated (parameter set, event history) pairs compared event by "
                 "event against an independent reference implementation of the v1.1 score; finds any altered term, cap, window, "
